@@ -37,6 +37,7 @@ typedef qlist_t cont_t;
 #define OP_TOARRAY 10
 #define OP_SIZE 11
 #define OP_TOSTRING 12 /* list only */
+#define OP_WALKLOCKED 13 /* lock(); getnext() until false; unlock(): must observe one consistent snapshot */
 
 #ifndef VF_N0
 #define VF_N0 2
@@ -97,6 +98,7 @@ static void ideal(struct seq *s, int op, long idx, uint8_t val, struct res *r) {
         else r->alen = 0;
         break;
     case OP_SIZE: r->ok = 1; r->alen = s->n; break;
+    case OP_WALKLOCKED: r->ok = 1; r->alen = s->n; for (int i = 0; i < CAPX; i++) r->arr[i] = i < s->n ? s->e[i] : 0; break;
     }
 }
 
@@ -119,6 +121,17 @@ static void real(cont_t *c, int op, int idx, uint8_t val, struct res *r) {
     case OP_CLEAR: c->clear(c); r->ok = 1; break;
     case OP_TOARRAY: p = c->toarray(c, &sz); r->alen = (int)sz; if (p) { r->ok = 1; for (int i = 0; i < CAPX; i++) r->arr[i] = i < (int)sz ? ((uint8_t *)p)[i] : 0; free(p); } p = NULL; break;
     case OP_SIZE: r->ok = 1; r->alen = (int)c->size(c); break;
+    case OP_WALKLOCKED: {
+        qvector_obj_t o;
+        memset(&o, 0, sizeof(o));
+        int n = 0;
+        c->lock(c);
+        for (int i = 0; i < CAPX + 1; i++) { if (!c->getnext(c, &o, false)) break; if (n < CAPX) r->arr[n] = *(uint8_t *)o.data; n++; }
+        c->unlock(c);
+        for (int i = 0; i < CAPX; i++) if (i >= n) r->arr[i] = 0;
+        r->ok = 1; r->alen = n;
+        break;
+    }
 #else
     case OP_ADDLAST: r->ok = c->addlast(c, &v, 1); break;
     case OP_ADDFIRST: r->ok = c->addfirst(c, &v, 1); break;
@@ -131,6 +144,17 @@ static void real(cont_t *c, int op, int idx, uint8_t val, struct res *r) {
     case OP_TOARRAY: p = c->toarray(c, &sz); r->alen = (int)sz; if (p) { r->ok = 1; for (int i = 0; i < CAPX; i++) r->arr[i] = i < (int)sz && i < CAPX ? ((uint8_t *)p)[i] : 0; free(p); } p = NULL; break;
     case OP_TOSTRING: { char *s = c->tostring(c); if (s) { r->ok = 1; int l = 0; for (int i = 0; i < CAPX; i++) if (l == i && s[i] != 0) l = i + 1; r->alen = l; for (int i = 0; i < CAPX; i++) r->arr[i] = i < l ? (uint8_t)s[i] : 0; free(s); } else r->alen = 0; } break;
     case OP_SIZE: r->ok = 1; r->alen = (int)c->size(c); break;
+    case OP_WALKLOCKED: {
+        qlist_obj_t o;
+        memset(&o, 0, sizeof(o));
+        int n = 0;
+        c->lock(c);
+        for (int i = 0; i < CAPX + 1; i++) { if (!c->getnext(c, &o, false)) break; if (n < CAPX) r->arr[n] = *(uint8_t *)o.data; n++; }
+        c->unlock(c);
+        for (int i = 0; i < CAPX; i++) if (i >= n) r->arr[i] = 0;
+        r->ok = 1; r->alen = n;
+        break;
+    }
 #endif
     default: break;
     }
